@@ -165,6 +165,8 @@ def exp_cell(fmt, is_id, v):
     k = v[0]
     if k in ("float", "other"):
         return None
+    if k == "str" and has_surrogate(v[1]) and fmt != "json":
+        return ["reject"]       # not encodable as UTF-8: a text file / sqlite3 refuses it
     if fmt == "txt":
         t = {"none": lambda: "None", "bool": lambda: "1" if v[1] else "0", "int": lambda: str(v[1]),
              "str": lambda: v[1], "date": lambda: _d(*v[1:]), "dt": lambda: _dt_seconds(v),
@@ -201,8 +203,17 @@ def exp_cell(fmt, is_id, v):
     raise ValueError(fmt)
 
 
+def has_surrogate(s):
+    return any(0xD800 <= ord(ch) <= 0xDFFF for ch in s)
+
+
 def is_k9_value(v):
-    return (v[0] == "int" and not (I64_LO <= v[1] < I64_HI)) or (v[0] == "ref" and not (I64_LO <= v[2] < I64_HI))
+    """a value the database refuses when the batch is flushed"""
+    return ((v[0] == "int" and not (I64_LO <= v[1] < I64_HI)) or (v[0] == "ref" and not (I64_LO <= v[2] < I64_HI))
+            or (v[0] == "str" and has_surrogate(v[1])))
+
+
+K9_VALUES = [["int", I64_HI], ["int", 2 ** 70], ["int", I64_LO - 1], ["str", "\ud800"], ["str", "a\udfffb"]]
 
 
 # ============================================================================ schema (oracle copy)
@@ -272,7 +283,7 @@ def gen_recipe_case(rng, big_count=None, outputs=None, k9=False):
     nvalues = rng.randint(3, 10)
     values = [gen_value(rng, allow_k9=(not sqlish)) for _ in range(nvalues)]
     if k9:
-        values[rng.randrange(nvalues)] = ["int", rng.choice([I64_HI, 2 ** 70, I64_LO - 1])]
+        values[rng.randrange(nvalues)] = rng.choice(K9_VALUES)
     ntab = rng.randint(1, 4)
     tabs = rng.sample(TABLES, ntab)
     templates = []
@@ -384,7 +395,7 @@ def gen_direct_case(rng, k9=False):
         case["limits"] = [fl, fl * rng.choice([1, 2, 3])]
     if k9:
         case.update(outputs=[rng.choice(["db", "sql"])], templates=[{"table": "A", "fields": [["f0", None]], "friends": []}],
-                    rows=[["A", [["id", ["int", 1]], ["f0", ["int", rng.choice([I64_HI, I64_LO - 1, 2 ** 70])]]]]])
+                    rows=[["A", [["id", ["int", 1]], ["f0", rng.choice(K9_VALUES)]]]])
         case.pop("limits", None)
     return case
 
@@ -720,7 +731,7 @@ def compare_row(fmt, table, raw, got, ti):
         if k not in gotd:
             return "cell: %s output, table %s: field %s of a row has no column" % (fmt, table, k)
         e = exp_cell(fmt, k == "id", v)
-        if e == ["reject"] and gotd[k] == ["text", str(v[1] if v[0] == "int" else v[2])]:
+        if e == ["reject"] and v[0] in ("int", "ref") and gotd[k] == ["text", str(v[1] if v[0] == "int" else v[2])]:
             continue    # a database that keeps the digits as text has lost nothing
         if e is not None and gotd[k] != e:
             return "cell: %s output, table %s field %s: value %r was written as %r, expected %r" % (fmt, table, k, v, gotd[k], e)
